@@ -11,7 +11,7 @@
    whole generated file and whether gofmt leaves it unchanged is runtime behaviour — the
    **partial** part, carried by the build farm (harness/cmd/c13) and judged by GenBuildJudge.  *)
 From Coq Require Import String List Bool.
-From GT Require Import GenBuildModel GenBuildProofs.
+From GT Require Import GenBuildModel GenBuildJudge GenBuildProofs.
 Import ListNotations.
 Local Open Scope string_scope.
 
@@ -33,29 +33,33 @@ Proof. exact hand_genum_methods. Qed.
 Theorem C13_methods_genum_nodup : forall o, NoDup (method_names genum_funcs (genum_env o)).
 Proof. exact hand_genum_nodup. Qed.
 
+(* ... and each with exactly the signature the interface demands: parameter and result types of
+   the emitted header (template text) equal those of genum.Enum, genum.TypedEnum[T] (T := the
+   generated type) and json/encoding/yaml marshaler interfaces *)
+Theorem C13_signatures_genum : forall o s, In s (genum_sigs hand_tables o) ->
+  emits_sig genum_funcs (genum_env o) s.
+Proof. exact hand_genum_sigs. Qed.
+
 (* gerror: with and without skipConvertGen — every Factory method GError declares (but Is) and
    Error() is overridden with a pointer receiver; every method of gerror.Error and
    gerror.Factory is generated or promoted from the embedded GError; no duplicates; with
-   skipConvertGen neither Convert nor ConvertS can be emitted *)
+   skipConvertGen neither Convert nor ConvertS can be emitted; every override has the signature
+   gerror.Factory / gerror.Error demands *)
 Theorem C13_methods_gerror_partial : forall skip, gerror_statement hand_tables skip.
 Proof. exact hand_gerror. Qed.
 
-(* gsort: value and pointer sorters get Len, Swap, Less on the slice type *)
-Theorem C13_methods_gsort_partial : forall p,
-  (forall r, In r sort_methods -> provides (emitted gsort_funcs (gsort_env p)) r)
-  /\ NoDup (method_names gsort_funcs (gsort_env p)).
+(* gsort: value and pointer sorters get Len, Swap, Less on the slice type, with sort.Interface's
+   signatures *)
+Theorem C13_methods_gsort_partial : forall p, gsort_statement hand_tables p.
 Proof. exact hand_gsort. Qed.
 
-(* the same three statements for ANY tables that pass the boolean sweeps (used by the per-run
-   tie with the regenerated tables) *)
+(* the same statements for ANY tables that pass the boolean sweeps (used by the per-run tie with
+   the tables regenerated from the templates, and the interface signatures read off the compiled
+   packages) *)
 Theorem C13_methods_any_table : forall T,
   genum_sweep T = true -> gerror_sweep T = true -> gsort_sweep T = true ->
-  (forall o, (forall r, In r (genum_required (tt_enum T) (tt_typed T) o) ->
-                        provides (emitted (tt_genum T) (genum_env o)) r)
-             /\ NoDup (method_names (tt_genum T) (genum_env o)))
-  /\ (forall skip, gerror_statement T skip)
-  /\ (forall p, (forall r, In r sort_methods -> provides (emitted (tt_gsort T) (gsort_env p)) r)
-                /\ NoDup (method_names (tt_gsort T) (gsort_env p))).
+  (forall o, genum_statement T o) /\ (forall skip, gerror_statement T skip)
+  /\ (forall p, gsort_statement T p).
 Proof. exact any_tables. Qed.
 
 (* every basic kind a Go constant can have (typed or untyped) is rendered by ExtractTypeRef as a
@@ -91,6 +95,15 @@ Example C13_example_imports :
      [mk_idesc "time" "xtime" true; mk_idesc "reflect" "reflect" true]).
 Proof. vm_compute. reflexivity. Qed.
 
+(* gencommon.Write's formatting fallback (oracle bit per case): such a run is never judged clean,
+   and it is a failing input exactly when no error was reported and no gofmt-clean package built *)
+Theorem C13_fallback_flagged : forall T ks r c, gc_fallback c = true -> gb_judge T ks r c <> 0.
+Proof. exact fallback_flagged. Qed.
+
+Theorem C13_fallback_violation : forall T ks r c, gc_fallback c = true ->
+  (gb_judge T ks r c = 1 <-> gc_obs c = ObsBad).
+Proof. exact fallback_violation. Qed.
+
 (* when the model predicts that a genum package builds, nothing required is missing and every
    basic trait kind renders as a predeclared type *)
 Theorem C13_predict_built : forall T ks r c,
@@ -113,6 +126,18 @@ Example C13_example_all_off :
   /\ render hand_render (mk_bkind "UntypedRune" "untyped rune" "rune" true true) = "rune".
 Proof. vm_compute. repeat split. Qed.
 
+(* non-vacuity of the signature statements; a dot-import needs no qualifier *)
+Example C13_example_signatures :
+  let o := {| go_json := false; go_yaml := true; go_text := false; go_ci := false;
+              go_disable_traits := false; go_parsable_some := true |} in
+  length (genum_sigs hand_tables o) = 14
+  /\ In (mk_sig "ParseString" ["string"] ["<$enumTypeName>"; "error"]) (genum_sigs hand_tables o)
+  /\ In (mk_sig "UnmarshalYAML" ["*yaml.Node"] ["error"]) (genum_sigs hand_tables o)
+  /\ length (gerror_sigs hand_tables true) = 19 /\ length (gsort_sigs hand_tables) = 3
+  /\ fst (extract_ref "farm/p" hand_render (TyNamed (Some ("time", "time")) "Duration" [])
+                      [mk_idesc "time" "." false]) = "Duration".
+Proof. vm_compute. repeat split; tauto. Qed.
+
 (* the pinned code (before the C13 fixes) violated both statements — kept as a record *)
 Theorem C13_methods_genum_orig_refuted :
   exists o, ~ (forall r, In r (genum_required iface_genum_Enum iface_genum_TypedEnum o) ->
@@ -130,6 +155,7 @@ Proof. exact orig_genum_yaml_on. Qed.
 
 Print Assumptions C13_methods_genum_partial.
 Print Assumptions C13_methods_genum_nodup.
+Print Assumptions C13_signatures_genum.
 Print Assumptions C13_methods_gerror_partial.
 Print Assumptions C13_methods_gsort_partial.
 Print Assumptions C13_methods_any_table.
@@ -137,6 +163,8 @@ Print Assumptions C13_basic_kinds.
 Print Assumptions C13_basic_kinds_any_table.
 Print Assumptions C13_imports_active.
 Print Assumptions C13_imports_active_all.
+Print Assumptions C13_fallback_flagged.
+Print Assumptions C13_fallback_violation.
 Print Assumptions C13_predict_built.
 Print Assumptions C13_methods_genum_orig_refuted.
 Print Assumptions C13_basic_kinds_orig_refuted.
